@@ -84,6 +84,24 @@ CHECKS = {
              "interpreter's call log (as a sequence when the source forces the order, as a multiset otherwise).",
         note="Trusted: refisa step trace, lib/xref.py call log, lib/asmsrc.parse_debug. Also checks that tracing changes neither exit value, input position nor system calls.",
         ref="4/C15"),
+    "C03": dict(
+        technique="runtime monitoring: per-clock lock-step of the Verilated RTL against hexsim (HEX_VERIF hook) and the reference ISA model, state planted through public variables",
+        engine="rtl-lockstep",
+        text="Exploration, exhaustive in the instruction-byte dimension: all 228 defined bytes x planted corner/random states (registers "
+             "and memory poked by name through Verilator's public-variable tables, 2% reached architecturally from reset), execute-driven "
+             "defined sequences and toolchain binaries from reset; after every clock pc/areg/breg/oreg must equal hexsim's and the "
+             "reference's after one instruction, the store request (valid/we/address/data) and the written word must match, and "
+             "o_syscall_valid/o_syscall must equal 'instruction is SVC'/areg[1:0].",
+        note="Trusted: refisa (range filter: byte addresses < 800000, words < 200000, defined opcodes) and Verilator honouring pokes (self-checked). Register values are sampled.",
+        ref="4/C03"),
+    "C16": dict(
+        technique="runtime monitoring: three-way per-clock lock-step of Verilated processor.sv, verilog/processor.v and synth/processor.v",
+        engine="rtl-lockstep",
+        text="Exploration, exhaustive in the instruction-byte dimension: all 256 bytes x planted states, random byte sequences from reset "
+             "and toolchain binaries; before each clock edge the seven processor outputs and after it the four registers and the written "
+             "memory word are compared between the three models, under randReset 0/1/2 and --x-assign/--x-initial unique.",
+        note="Behavioural, two-state simulation; X terms of the sv2v text are sampled. Textual identity of the two copies is reported as information only.",
+        ref="4/C16"),
 }
 
 PENDING_REASON = "no check registered yet in this revision of /verif (machinery for it is still being built; see DESIGN.md section 4)"
@@ -118,6 +136,8 @@ def main():
              "kind_free_text": "in-process assembler driver (HEX_VERIF layout hook) with image decode-walk"},
             {"name": "xref", "path": "lib/xref.py", "serves_properties": ["C01", "C07", "C08", "C15"],
              "kind_free_text": "reference parser and definitional interpreter for X with event log and well-definedness monitor; lib/xgen.py generators; harness/h_x.cpp compile+lock-step runner"},
+            {"name": "rtl-lockstep", "path": "harness/h_rtl.cpp", "serves_properties": ["C03", "C16"],
+             "kind_free_text": "Verilated models built by the check from the working tree, stepped in lock-step; state access by name"},
             {"name": "buildcache", "path": "lib/common.py", "serves_properties": sorted(CHECKS),
              "kind_free_text": "content-hash build cache, fork-per-case runner, verdict/evidence/known-finding plumbing"},
         ],
